@@ -822,5 +822,27 @@ CASES.append({'name': 'ben45r5-named-predicate-bounds-swapped', 'props': ['C11']
                          '            value - BOUNDS_TOLERANCE > lower || value + BOUNDS_TOLERANCE < upper')]})
 CASES.append({'name': 'ben45r5-named-predicate-all-instead-of-any', 'props': ['C11'], 'expect': ['C11.same'], 'patch': '/verif/selftest/benign/ben45-r5.diff',
               'edits': [('oxmpl/src/base/spaces/real_vector_state_space.rs', '        !(0..self.dimension).any(violates_bound)', '        !(0..self.dimension).all(violates_bound)')]})
-CASES.append({'name': 'ben45r2-range-test-ends-swapped', 'props': ['C11'], 'expect': ['C11.same'], 'patch': '/verif/selftest/benign/unsupported/ben45-r2.diff',
+CASES.append({'name': 'ben45r2-range-test-ends-swapped', 'props': ['C11'], 'expect': ['C11.same'], 'patch': '/verif/selftest/benign/ben45-r2.diff',
               'edits': [('oxmpl/src/base/spaces/so2_state_space.rs', '        (lower..=upper).contains(&value)', '        (upper..=lower).contains(&value)')]})
+benign_patch('ben45-r2', ['C05', 'C06', 'C08', 'C09', 'C10', 'C11', 'C12', 'C13', 'C14', 'C15', 'C07'])   # SO2: wrap_to_pi / nearest_bound / is_proper_interval helpers, range form of the bounds test over a value chosen by an `if` expression
+CASES.append({'name': 'ben45r2-bounds-test-always-rewraps', 'props': ['C11'], 'expect': ['C11.accept'], 'patch': '/verif/selftest/benign/ben45-r2.diff',
+              'edits': [('oxmpl/src/base/spaces/so2_state_space.rs', '        let value = if (-PI..=PI).contains(&state.value) {\n            state.value\n        } else {\n            wrap_to_pi(state.value)\n        };',
+                         '        let value = wrap_to_pi(state.value);')]})
+
+# round 17 of seeded changes, the repair of the SO(3) cone centre (9308c57) and the rules that came with them
+seeded('seeded-RHC02-joined-path-cut-one-past-first-goal-state', ['C02'], ['C02.goal'])
+seeded('seeded-RHC04-so2-raw-difference-of-unnormalised-angles', ['C04', 'C10'], ['C10.arc'])
+seeded('seeded-RHC05-prm-entry-point-indexes-unfiltered-starts', ['C05', 'C01', 'C03'], ['C05.radius', 'C01.prov'])
+seeded('seeded-RHC06-prm-attaches-unchecked-goal-sample', ['C06', 'C01', 'C02'], ['C01.prov', 'C02.goal'])
+seeded('seeded-RHC09-so3-distance-clamp-before-abs', ['C09'], ['C09.range'])
+seeded('seeded-RHC10-so3-acos-hoisted-above-the-branch', ['C10'], ['C10.domain'])
+seeded('seeded-RHC12-so3-radius-sign-test-with-tolerance', ['C12'], ['C12.nan'])
+seeded('seeded-RHC14-so3-sampler-retries-rotated-images', ['C14'], ['C14.so3'])
+case('c12-so3-centre-stored-as-given', ['C12'], ['C12.centre'],
+     ('oxmpl/src/base/spaces/so3_state_space.rs', "                let center_rotation = center_rotation\n                    .normalise()\n                    .map_err(|_| StateSpaceError::InvalidCenterRotation)?;\n", ""))
+case('c12-so3-centre-zero-fallback', ['C12'], ['C12.centre'],
+     ('oxmpl/src/base/spaces/so3_state_space.rs', "                    .normalise()\n                    .map_err(|_| StateSpaceError::InvalidCenterRotation)?;", "                    .normalise()\n                    .unwrap_or_default();"))
+case('c10-so3-distance-clamp-removed', ['C10'], ['C10.domain'],
+     ('oxmpl/src/base/spaces/so3_state_space.rs', "        let clamped_dot = abs_dot.min(1.0);", "        let clamped_dot = abs_dot;"))
+case('c10-so3-slerp-branch-test-widened', ['C10'], ['C10.domain'],
+     ('oxmpl/src/base/spaces/so3_state_space.rs', "        if dot > DOT_THRESHOLD {", "        if dot > DOT_THRESHOLD * 2.0 {"))
